@@ -18,14 +18,15 @@ def expected_skip_type(skip, module):
     return PN + "Empty<'i>"
 
 
-def run(ctx, fs_unused=None):
+def run(ctx, fs_unused=None, ids=("R07-CONST", "R07-SKIPTY", "R07-KIND")):
+    """`ids`: C04 registers the same instances under its own rule ids (the trailing skip of a full parse is generics::Skipped)."""
     base = "fx_kinds3" if ctx.tier == "thorough" else "fx_kinds2"
-    rc = ctx.rule("R07-CONST", "in every grammar of the kind-nesting family (optimized and raw-AST generator), every Skipped<_,_,K>, every repetition and "
+    rc = ctx.rule(ids[0], "in every grammar of the kind-nesting family (optimized and raw-AST generator), every Skipped<_,_,K>, every repetition and "
                                "every rule reference inside rule r carries K = 0 (atomic / compound-atomic), 1 (non-atomic) or INHERITED (normal / silent) "
                                "according to r's own kind")
-    rs = ctx.rule("R07-SKIPTY", "generics::Skipped<'i> is AtomicRepeat over WHITESPACE<'i,0> / COMMENT<'i,0> (or Empty) according to which are defined, "
+    rs = ctx.rule(ids[1], "generics::Skipped<'i> is AtomicRepeat over WHITESPACE<'i,0> / COMMENT<'i,0> (or Empty) according to which are defined, "
                                 "and it is the skip type at every skip position and of every full-parse wrapper")
-    rk = ctx.rule("R07-KIND", "derive output: the full-parse wrapper skips before EOI exactly for normal / silent / non-atomic rules")
+    rk = ctx.rule(ids[2], "derive output: the full-parse wrapper skips before EOI exactly for normal / silent / non-atomic rules")
     n_pos = 0
     for unit in (base, base + "r"):
         n_pos += run_unit(ctx, unit, rc, rs, rk)
